@@ -120,6 +120,8 @@ func runC05(c *Ctx) {
 	c.r0520(pk)
 	c.r0522(pk)
 	c.r0523(pk, "R05.23")
+	c.r0524(pk)
+	c.r0525(pk)
 	// the same escaper as in the XML minifier: SVG is XML
 	c.r069("R05.21", "svg")
 	// Inline decides whether the root element keeps its xmlns: it is a per-call fact and must not be written
@@ -258,6 +260,15 @@ func (c *Ctx) r0510(pk *packages.Package) {
 			}
 			w1 := nospace(v1 + "==" + endVar["x"])
 			w2 := nospace(v2 + "==" + endVar["y"])
+			// the comparison may be written (or canonicalised) with its operands the other way round
+			for _, a := range atoms {
+				if a == nospace(endVar["x"]+"=="+v1) {
+					w1 = a
+				}
+				if a == nospace(endVar["y"]+"=="+v2) {
+					w2 = a
+				}
+			}
 			bad := ""
 			for mask := 0; mask < 1<<len(atoms) && bad == ""; mask++ {
 				env := map[string]int64{}
@@ -287,7 +298,7 @@ func (c *Ctx) r0510(pk *packages.Package) {
 				}
 			}
 			c.R.Check(bad == "", rule, construct, c.pos(ifs), "implies "+w1+" ∧ "+w2, "the curve is turned into a line although its last control point need not be the end point (holds e.g. with only "+bad+"): a following smooth curve then starts from a different control point")
-			return true
+			return false // the choice between l and L inside is not another rewrite
 		})
 	}
 	c.R.Floor(rule, "curve-to-line rewrites", n, 2)
@@ -1873,4 +1884,336 @@ func (c *Ctx) r0523(pk *packages.Package, rule string) {
 		c.R.Check(p == nil, rule, fmt.Sprintf("svg.Minifier.Minify/collapsed element#%d resets the element context", n), c.pos(a), "the element variable is assigned before the next token", "an element whose end tag the minifier swallows leaves `"+c.P.NameOf(tagVar)+"` set: what follows `<style></style>` is still treated as the text of a style element: "+pathStr(c, g, p))
 	}
 	c.R.Floor(rule, "collapses of an empty element to a void tag", n, 1)
+}
+
+// R05.24: a DOCTYPE with an internal subset is kept, whatever white space precedes its `>`.
+func (c *Ctx) r0524(pk *packages.Package) {
+	const rule = "R05.24"
+	c.R.Rule(rule, "svg.(*Minifier).Minify drops the DOCTYPE unless it has an internal subset (`[<!ENTITY x \"bar\">]`), whose entity declarations the document's references need. XML allows white space between the `]` and the `>` (doctypedecl ::= … ('[' intSubset ']' S?)? '>'). In case xml.DOCTYPEToken the byte that is compared with ']' is read from a value that went through a white space trimming helper (parse.TrimWhitespace, bytes.TrimSpace, bytes.TrimRight), or the subset is looked for by its opening '[' (bytes.IndexByte / bytes.Contains)")
+	info := pk.TypesInfo
+	fd := c.fn(rule, pk, "Minifier.Minify")
+	if fd == nil {
+		return
+	}
+	isTrim := func(e ast.Expr) bool {
+		ce, ok := ast.Unparen(e).(*ast.CallExpr)
+		if !ok {
+			return false
+		}
+		nm := calleeName(info, ce)
+		return strings.HasSuffix(nm, ".TrimWhitespace") || nm == "bytes.TrimSpace" || nm == "bytes.TrimRight" || nm == "bytes.TrimRightFunc"
+	}
+	var trimmed func(e ast.Expr, depth int) bool
+	trimmed = func(e ast.Expr, depth int) bool {
+		e = ast.Unparen(e)
+		if isTrim(e) {
+			return true
+		}
+		if id, ok := e.(*ast.Ident); ok && depth < 3 {
+			if d := c.singleDef(pk, id); d != nil {
+				return trimmed(d, depth+1)
+			}
+		}
+		return false
+	}
+	n := 0
+	ast.Inspect(fd.Body, func(x ast.Node) bool {
+		cc, ok := x.(*ast.CaseClause)
+		if !ok || len(cc.List) != 1 || !strings.HasSuffix(nospace(str(cc.List[0])), ".DOCTYPEToken") {
+			return true
+		}
+		n++
+		good, seen := false, false
+		ast.Inspect(cc, func(z ast.Node) bool {
+			switch v := z.(type) {
+			case *ast.BinaryExpr:
+				if v.Op != token.EQL && v.Op != token.NEQ {
+					return true
+				}
+				for _, pair := range [][2]ast.Expr{{v.X, v.Y}, {v.Y, v.X}} {
+					chars, _, _ := c.constsIn(pk, pair[1])
+					ix, ok := ast.Unparen(pair[0]).(*ast.IndexExpr)
+					if !ok || !chars[']'] {
+						continue
+					}
+					seen = true
+					if trimmed(ix.X, 0) {
+						good = true
+					}
+				}
+			case *ast.CallExpr:
+				nm := calleeName(info, v)
+				if nm == "bytes.IndexByte" || nm == "bytes.Contains" || nm == "bytes.ContainsRune" || nm == "bytes.LastIndexByte" {
+					chars, strs, _ := c.constsIn(pk, v)
+					if chars['['] || strs["["] {
+						good, seen = true, true
+					}
+				}
+				if nm == "bytes.HasSuffix" {
+					chars, strs, _ := c.constsIn(pk, v)
+					if (chars[']'] || strs["]"]) && len(v.Args) == 2 {
+						seen = true
+						if trimmed(v.Args[0], 0) {
+							good = true
+						}
+					}
+				}
+			}
+			return true
+		})
+		if !seen {
+			// written whatever it holds, or dropped whatever it holds: the latter is R05.1's concern
+			written := len(findCalls(info, cc, false, "(io.Writer).Write")) > 0
+			c.R.Check(written, rule, "svg.Minifier.Minify/case xml.DOCTYPEToken/internal subset recognised behind white space", c.pos(cc), "no test of the subset: the DOCTYPE is written as it is", "the DOCTYPE is dropped without a look at its internal subset")
+			return false
+		}
+		c.R.Check(good, rule, "svg.Minifier.Minify/case xml.DOCTYPEToken/internal subset recognised behind white space", c.pos(cc), "the `]` is looked for behind trimmed white space",
+			"the internal subset is recognised by the last byte of the DOCTYPE's text being `]`: `<!DOCTYPE svg [<!ENTITY x \"bar\">] >` ends in a space, the DOCTYPE is dropped, and the reference `&x;` is left undefined — the output is not well-formed")
+		return false
+	})
+	c.R.Floor(rule, "DOCTYPE cases", n, 1)
+}
+
+// R05.25: a smooth curve reflects the control point of the command written in front of it.
+func (c *Ctx) r0525(pk *packages.Package) {
+	const rule = "R05.25"
+	c.R.Rule(rule, "S/s and T/t take their first control point from the command in front of them: the reflection of its last control point when that is a curve of the same family, the current point otherwise. copyInstruction turns degenerate curves into lines and drops zero-length lines, which changes what a following smooth command reflects: `C0 0 0 0 10 10S20 0 30 30` became `L10 10S20 0 30 30` (control point (10,10) instead of (20,20)), `C…l0 0s…` became `C…s…`. (a) ShortenPathData hands the command that follows to copyInstruction — a receiver field assigned in front of every call — and copyInstruction reads it; (b) the `continue` that drops a zero-length line is dominated by the false outcome of a test derived from that field, and no path reaches it from a reset of the control point fields (an assignment that is not a restoration of a value saved at the top of the iteration) without passing such a restoration — what is written next follows what was written before; (c) every curve-to-line conversion whose condition compares a control point with the start point mentions a test derived from the field")
+	info := pk.TypesInfo
+	fdS := c.fn(rule, pk, "PathData.ShortenPathData")
+	fdC := c.fn(rule, pk, "PathData.copyInstruction")
+	if fdS == nil || fdC == nil {
+		return
+	}
+	// (a)
+	var field *types.Var
+	ncalls, okCalls := 0, true
+	ast.Inspect(fdS.Body, func(x ast.Node) bool {
+		bl, ok := x.(*ast.BlockStmt)
+		if !ok {
+			return true
+		}
+		for i, st := range bl.List {
+			if len(findCalls(info, st, false, load.Mod+"/svg.(PathData).copyInstruction")) == 0 {
+				continue
+			}
+			if _, isBlockish := st.(*ast.IfStmt); isBlockish {
+				continue // the call is deeper
+			}
+			if _, isFor := st.(*ast.ForStmt); isFor {
+				continue
+			}
+			ncalls++
+			var f *types.Var
+			if i > 0 {
+				if as, ok := bl.List[i-1].(*ast.AssignStmt); ok && len(as.Lhs) == 1 {
+					if sel, ok := as.Lhs[0].(*ast.SelectorExpr); ok {
+						if v, ok := info.Uses[sel.Sel].(*types.Var); ok && v.IsField() {
+							f = v
+						}
+					}
+				}
+			}
+			if f == nil || field != nil && f != field {
+				okCalls = false
+			} else {
+				field = f
+			}
+		}
+		return true
+	})
+	reads := false
+	if field != nil {
+		ast.Inspect(fdC.Body, func(x ast.Node) bool {
+			if sel, ok := x.(*ast.SelectorExpr); ok && info.Uses[sel.Sel] == field {
+				reads = true
+			}
+			return true
+		})
+	}
+	c.R.Check(ncalls >= 2 && okCalls && reads, rule, "svg.PathData.ShortenPathData/the command that follows is handed to copyInstruction", c.pos(fdS), fmt.Sprintf("%d calls, each behind an assignment of one receiver field that copyInstruction reads", ncalls),
+		"copyInstruction does not know which command follows the one it rewrites: it cannot tell whether a degenerate curve may become a line (`M0 0C0 0 0 0 10 10S20 0 30 30` → `M0 0 10 10S20 0 30 30`, the S now starts at (10,10) instead of (20,20))")
+	if field == nil {
+		return
+	}
+	derived := func(e ast.Expr) bool {
+		hit := false
+		var walk func(e ast.Expr, depth int)
+		walk = func(e ast.Expr, depth int) {
+			ast.Inspect(e, func(z ast.Node) bool {
+				switch v := z.(type) {
+				case *ast.SelectorExpr:
+					if info.Uses[v.Sel] == field {
+						hit = true
+					}
+				case *ast.Ident:
+					if _, ok := info.Uses[v].(*types.Var); ok && depth < 3 {
+						if d := c.singleDef(pk, v); d != nil {
+							walk(d, depth+1)
+						}
+					}
+				}
+				return !hit
+			})
+		}
+		walk(e, 0)
+		return hit
+	}
+	g := c.graph(pk, fdC)
+	isCtl := func(e ast.Expr) bool {
+		sel, ok := ast.Unparen(e).(*ast.SelectorExpr)
+		if !ok {
+			return false
+		}
+		v, ok := info.Uses[sel.Sel].(*types.Var)
+		if !ok || !v.IsField() || !isFloat(v.Type()) {
+			return false
+		}
+		// the control point fields: the float fields copyInstruction sets to NaN
+		return c.nanFields(pk, fdC)[v]
+	}
+	// saved copies: locals defined from a control point field
+	isSaved := func(e ast.Expr) bool {
+		id, ok := ast.Unparen(e).(*ast.Ident)
+		if !ok {
+			return false
+		}
+		d := c.singleDef(pk, id)
+		return d != nil && isCtl(d)
+	}
+	var resets, restores []*flow.Node
+	for _, y := range g.Nodes {
+		as, ok := y.Stmt.(*ast.AssignStmt)
+		if !ok || y.Kind != flow.KStmt || len(as.Lhs) != len(as.Rhs) {
+			continue
+		}
+		anyCtl, allSaved := false, true
+		for i, l := range as.Lhs {
+			if isCtl(l) {
+				anyCtl = true
+				if !isSaved(as.Rhs[i]) {
+					allSaved = false
+				}
+			}
+		}
+		if !anyCtl {
+			continue
+		}
+		if allSaved {
+			restores = append(restores, y)
+		} else {
+			resets = append(resets, y)
+		}
+	}
+	// (b)
+	nd := 0
+	for _, y := range g.Nodes {
+		br, ok := y.Stmt.(*ast.BranchStmt)
+		if !ok || y.Kind != flow.KStmt || br.Tok != token.CONTINUE {
+			continue
+		}
+		nd++
+		guarded := false
+		for _, f := range g.DomFacts(y) {
+			if f.Test.Kind == flow.KCond && derived(f.Test.Expr) {
+				e, val := ast.Unparen(f.Test.Expr), f.Value
+				for {
+					u, ok := e.(*ast.UnaryExpr)
+					if !ok || u.Op != token.NOT {
+						break
+					}
+					e, val = ast.Unparen(u.X), !val
+				}
+				if !val {
+					guarded = true
+				}
+			}
+		}
+		key := fmt.Sprintf("svg.PathData.copyInstruction/dropped command#%d", nd)
+		c.R.Check(guarded, rule, key+" not in front of a smooth curve", c.pos(br), "behind the false outcome of a test of the command that follows",
+			"a zero-length line is dropped whatever follows: in `C0 10 10 10 10 0l0 0s10 -10 10 0` the s starts at the current point, in the output `C0 10 10 10 10 0s10-10 10 0` it reflects the control point of the C")
+		var bad []string
+		for _, r := range resets {
+			isRestore := func(q *flow.Node) bool {
+				for _, s := range restores {
+					if s == q {
+						return true
+					}
+				}
+				return false
+			}
+			if p := g.Path(flow.Search{From: []*flow.Node{r}, Goal: func(q *flow.Node) bool { return q == y }, Avoid: isRestore}); p != nil {
+				bad = append(bad, c.pos(r.Stmt))
+			}
+		}
+		c.R.Check(len(bad) == 0, rule, key+" leaves the control point state as it was", c.pos(br), fmt.Sprintf("%d resets, each followed by a restoration on the way to the drop", len(resets)),
+			"the control point fields are reset ("+strings.Join(bad, ", ")+") for a command that is then dropped: the next command follows the previous one in the output, but is compared with the state of the dropped one — `C0 10 10 10 10 0l0 0c0 0 10 -10 10 0` became `C0 10 10 10 10 0s10-10 10 0`")
+	}
+	c.R.Floor(rule, "dropped commands in copyInstruction", nd, 1)
+	// (c)
+	nc := 0
+	recv := ""
+	if fdC.Recv != nil && len(fdC.Recv.List) > 0 && len(fdC.Recv.List[0].Names) > 0 {
+		recv = fdC.Recv.List[0].Names[0].Name
+	}
+	ast.Inspect(fdC.Body, func(x ast.Node) bool {
+		ifs, ok := x.(*ast.IfStmt)
+		if !ok {
+			return true
+		}
+		toLine := false
+		for _, st := range ifs.Body.List {
+			ast.Inspect(st, func(z ast.Node) bool {
+				if as, ok := z.(*ast.AssignStmt); ok && len(as.Rhs) == 1 {
+					if chars, _, _ := c.constsIn(pk, as.Rhs[0]); chars['l'] || chars['L'] {
+						toLine = true
+					}
+				}
+				return true
+			})
+		}
+		cs := nospace(str(ifs.Cond))
+		if !toLine || !(strings.Contains(cs, "=="+recv+".x") && strings.Contains(cs, "=="+recv+".y")) {
+			return true
+		}
+		// only conversions of curves: the condition mentions a curve command letter
+		chars, _, _ := c.constsIn(pk, ifs.Cond)
+		if !(chars['C'] || chars['Q'] || chars['S'] || chars['T']) {
+			return true
+		}
+		nc++
+		c.R.Check(derived(ifs.Cond), rule, fmt.Sprintf("svg.PathData.copyInstruction/curve to line#%d looks at the command that follows", nc), c.pos(ifs), "the condition mentions the command that follows",
+			"a curve whose last control point lies on its start point becomes a line whatever follows: a smooth curve behind it reflects that control point, behind a line it starts at the current point (`M0 0Q0 0 10 10T20 0` → `M0 0 10 10 20 0`, a straight line instead of a curve)")
+		return true
+	})
+	c.R.Floor(rule, "curve to line conversions", nc, 2)
+}
+
+// nanFields returns the float fields of the receiver that fd sets to math.NaN().
+func (c *Ctx) nanFields(pk *packages.Package, fd *ast.FuncDecl) map[*types.Var]bool {
+	info := pk.TypesInfo
+	out := map[*types.Var]bool{}
+	ast.Inspect(fd.Body, func(x ast.Node) bool {
+		as, ok := x.(*ast.AssignStmt)
+		if !ok || len(as.Lhs) != len(as.Rhs) {
+			return true
+		}
+		for i, l := range as.Lhs {
+			sel, ok := l.(*ast.SelectorExpr)
+			if !ok {
+				continue
+			}
+			if ce, ok := ast.Unparen(as.Rhs[i]).(*ast.CallExpr); ok && calleeName(info, ce) == "math.NaN" {
+				if v, ok := info.Uses[sel.Sel].(*types.Var); ok && v.IsField() {
+					out[v] = true
+				}
+			}
+		}
+		return true
+	})
+	return out
+}
+
+func isFloat(t types.Type) bool {
+	b, ok := t.Underlying().(*types.Basic)
+	return ok && b.Info()&types.IsFloat != 0
 }
